@@ -66,6 +66,18 @@ pub fn dec_header(c: Codec, input: &[u8]) -> Option<Result<(u16, u16, u32, u32, 
     })
 }
 
+/// decode_header through the adaptive (flexible) LE decoder, fresh instance: an explicit header with a tag
+/// unknown to the dictionary locks it to explicit VR
+pub fn dec_header_adaptive(input: &[u8]) -> Option<Result<(u16, u16, u32, u32, usize, usize), u32>> {
+    catch(|| {
+        let mut src: &[u8] = input;
+        match AdaptiveVRLittleEndianDecoder::default().decode_header(&mut src) {
+            Ok((h, n)) => Ok((h.tag.0, h.tag.1, vr_index(h.vr), h.len.0, n, src.len())),
+            Err(e) => Err(derr(&e)),
+        }
+    })
+}
+
 fn dec_item(c: Codec, input: &[u8]) -> Option<Result<(u32, u32, usize), u32>> {
     catch(|| {
         let mut src: &[u8] = input;
@@ -196,6 +208,10 @@ pub fn cases(ctx: &Ctx) -> Vec<Case> {
         out.push(enc_case(c, 0x0009, 0x1001, vi, *v, len, "sweep"));
         out.push(dec_wellformed_case(c, 0x0009, 0x1001, vi, *v, len, &[0xAB, 0xCD, 0xEF], "sweep"));
     } } }
+    // the adaptive LE decoder in explicit mode: every VR x every boundary length
+    for (vi, _v) in ALL_VRS.iter().enumerate() { for len in LENS { out.push(dec_adaptive_case(0x0009, 0x1001, vi, len, &[0xAB, 0xCD, 0xEF])); } }
+    // VR::from_binary on ALL 65536 codes, evaluated here; every deviation from the standard's list becomes a failing case
+    out.extend(vrcode_full_sweep());
     // item headers: all kinds x codecs x boundary lengths
     for c in CODECS { for kind in 0..3u32 { for len in LENS { out.push(item_case(c, kind, len, &[1, 2, 3])); } } }
     // all 34 defined codes + neighbours (case variants, swapped letters)
@@ -270,6 +286,35 @@ fn dec_wellformed_case(c: Codec, g: u16, e: u16, vi: usize, _v: VR, len: u32, re
     };
     let mut k = dec_raw_case(c, &input, &format!("dec-{}-{}", if short { "short" } else { "long" }, src));
     k.oracle = oracle; k
+}
+
+/// adaptive decoder, explicit mode, on a PS3.5-layout Explicit VR LE header; the Coq side compares with the ELE decoder model
+fn dec_adaptive_case(g: u16, e: u16, vi: usize, len: u32, rest: &[u8]) -> Case {
+    let name = PS35_VRS[vi];
+    let short = PS35_LEN16.contains(&name);
+    let len = if short { len & 0xFFFF } else { len };
+    let hdr = ps35_header(Codec::Ele, g, e, name, len);
+    let mut input = hdr.clone(); input.extend(rest);
+    let res = dec_header_adaptive(&input);
+    let oracle = match &res { Some(Ok(t)) if *t == (g, e, vi as u32, len, hdr.len(), rest.len()) => Oracle::Holds,
+        other => Oracle::Fails { class: "header-decode-adaptive".into(), detail: format!("adaptive LE decoder (explicit mode) VR {} on {} -> {:?}, layout says tag ({:04X},{:04X}) len {:#x} size {}", name, hex(&input), other, g, e, len, hdr.len()) } };
+    Case { coq: format!("(CDec 1 None {} {})", c_bytes(&input), c_res(&res, |t| c_tuple(&[t.0.to_string(), t.1.to_string(), t.2.to_string(), t.3.to_string(), t.4.to_string(), t.5.to_string()]))),
+        desc: json!({"bucket": format!("dec-adaptive-{}", if short { "short" } else { "long" }), "codec": "adaptive-LE(explicit)", "vr": name, "len": len, "input": hex(&input)}),
+        key: format!("a-{}-{}", vi, len), oracle }
+}
+
+fn vrcode_full_sweep() -> Vec<Case> {
+    let mut bad = vec![];
+    for c in 0..65536u32 {
+        let (a, b) = ((c >> 8) as u8, (c & 255) as u8);
+        let res = VR::from_binary([a, b]).map(vr_index);
+        let want = PS35_VRS.iter().position(|n| n.as_bytes() == [a, b]).map(|p| p as u32);
+        if res != want && bad.len() < 20 { bad.push(vrcode_case(a, b)); }
+    }
+    if bad.is_empty() {
+        bad.push(Case { coq: String::new(), desc: json!({"bucket": "vrcode-full-sweep", "checked": 65536}), key: "vrcode-full-sweep".into(), oracle: Oracle::Holds });
+    }
+    bad
 }
 
 fn dec_raw_case(c: Codec, input: &[u8], bucket: &str) -> Case {
